@@ -356,24 +356,44 @@ Qed.
 Lemma child_after_node t i us n : child_after upd_node t i us n = spec_node t us i n.
 Proof. rewrite child_after_matching. unfold spec_node. apply fold_upd_node. Qed.
 
+Lemma wrap8_opp_wrap8 x : wrap8 (- wrap8 x) = wrap8 (- x).
+Proof. unfold wrap8. Z.div_mod_to_equations. lia. Qed.
+
+Lemma wrap8_small x : -128 <= x <= 127 -> wrap8 x = x.
+Proof. unfold wrap8. intro H. Z.div_mod_to_equations. lia. Qed.
+
+Lemma flipped_succ o k : wrap8 (- flipped o k) = flipped o (S k).
+Proof.
+  unfold flipped. cbn [Nat.eqb]. rewrite Nat.even_succ, <- Nat.negb_even.
+  destruct k as [|k]; [reflexivity|]. cbn [Nat.eqb]. rewrite wrap8_opp_wrap8.
+  destruct (Nat.even (S k)); cbn [negb]; [reflexivity|]. rewrite Z.opp_involutive. reflexivity.
+Qed.
+
+(* on the orientations that occur (-1, 0, 1) this is plain negation per flip *)
+Lemma flipped_small o k : -127 <= o <= 127 -> flipped o k = if Nat.even k then o else - o.
+Proof.
+  intro H. unfold flipped. destruct k as [|k]; [reflexivity|]. cbn [Nat.eqb].
+  destruct (Nat.even (S k)); apply wrap8_small; lia.
+Qed.
+
 Lemma fold_upd_member l : forall m,
   fold_left (fun c u => upd_member u c) l m =
   match last_opt l with
   | None => m
   | Some u => mkMember (m_type m) (m_ref m) (m_role m) (u_ver u) (u_cs u) (u_lat u) (u_lon u)
-                       (if Nat.even (length (filter u_rev l)) then m_orient m else - m_orient m)
+                       (flipped (m_orient m) (length (filter u_rev l)))
   end.
 Proof.
   induction l as [|u r IH] using rev_ind; intro m; [reflexivity|].
   rewrite fold_left_app, last_opt_app. cbn [fold_left]. rewrite IH.
   rewrite filter_app, app_length. cbn [filter].
+  set (k := length (filter u_rev r)).
   assert (Hor : m_orient (match last_opt r with
                           | None => m
                           | Some u0 => mkMember (m_type m) (m_ref m) (m_role m) (u_ver u0) (u_cs u0)
-                                         (u_lat u0) (u_lon u0)
-                                         (if Nat.even (length (filter u_rev r)) then m_orient m else - m_orient m)
-                          end) = if Nat.even (length (filter u_rev r)) then m_orient m else - m_orient m).
-  { destruct (last_opt r) eqn:El; [reflexivity|].
+                                         (u_lat u0) (u_lon u0) (flipped (m_orient m) k)
+                          end) = flipped (m_orient m) k).
+  { destruct (last_opt r) eqn:El; [reflexivity|]. subst k.
     destruct r as [|a r'] using rev_ind; [reflexivity|]. rewrite last_opt_app in El. discriminate. }
   unfold upd_member. rewrite Hor.
   assert (Hty : forall x, m_type (match last_opt r with None => m | Some u0 => mkMember (m_type m) (m_ref m) (m_role m) (u_ver u0) (u_cs u0) (u_lat u0) (u_lon u0) x end) = m_type m)
@@ -384,8 +404,7 @@ Proof.
     by (intro; destruct (last_opt r); reflexivity).
   rewrite Hty, Hrf, Hro. f_equal.
   destruct (u_rev u); cbn [length].
-  - rewrite Nat.add_1_r, Nat.even_succ, <- Nat.negb_even.
-    destruct (Nat.even (length (filter u_rev r))); cbn; lia.
+  - rewrite Nat.add_1_r. apply flipped_succ.
   - rewrite Nat.add_0_r. reflexivity.
 Qed.
 
